@@ -44,7 +44,7 @@ Print Assumptions lockset_sound_no_exclusion.
    finding C19/1 (SwapService.lockSwap reads other swaps' data under the service lock only), confirmed by the race
    detector and restated in Findings/F_C19_1.v. *)
 Definition C19_full : Prop :=
-  forall ts c, incl ts skel_roots -> reach c19_prog (init c19_prog ts) c ->
+  forall ts c, incl ts skel_roots -> reach c19_prog_full (init c19_prog_full ts) c ->
   forall i j g1 g2 f w1 w2, i <> j ->
     accessing c i = Some (g1, f, w1) -> accessing c j = Some (g2, f, w2) -> w1 || w2 = true ->
     c19_excuse_full f g1 g2 = true \/ c19_excuse_full f g2 g1 = true.
